@@ -738,6 +738,13 @@ func (c *Client) processPubrel(id packet.ID) error {
 		}
 	}
 
+	// remove packet from store before acknowledging, otherwise a repeated
+	// Pubrel after a lost Pubcomp would deliver the message again
+	err = c.Session.DeletePacket(session.Incoming, id)
+	if err != nil {
+		return c.die(err, true)
+	}
+
 	// prepare pubcomp packet
 	pubcomp := packet.NewPubcomp()
 	pubcomp.ID = publish.ID
@@ -746,12 +753,6 @@ func (c *Client) processPubrel(id packet.ID) error {
 	err = c.send(pubcomp, true)
 	if err != nil {
 		return c.die(err, false)
-	}
-
-	// remove packet from store
-	err = c.Session.DeletePacket(session.Incoming, id)
-	if err != nil {
-		return c.die(err, true)
 	}
 
 	return nil
